@@ -60,13 +60,13 @@ MultiTags(ev, a) ==
                   \cup { [kind |-> "unused", locale |-> x, at |-> [ns |-> ns, path |-> <<"g", a.nested[i]>>], form |-> f, rt |-> "ordinal"]
                     : x \in LocSet, i \in DOMAIN a.nested, f \in Range(AllForms) }
           expU == { w \in exp : w.form \notin Range(Oracle.categories[w.locale][w.rt]) } IN
-      (IF DOMAIN keys # Range(a.top) \cup {"g", "d"} \cup { "e" \o ToString(i) : i \in DOMAIN CountToks } THEN {"multi-keyset"}
-       ELSE IF keys["g"].t # "sub" \/ DOMAIN keys["g"].keys # Range(a.nested) THEN {"multi-nested-keyset"}
+      (IF DOMAIN keys # Range(a.top) \cup {"g", "d", "a0_one", "a0_two"} \cup { "e" \o ToString(i) : i \in DOMAIN CountToks } THEN {"multi-keyset"}
+       ELSE IF keys["g"].t # "sub" \/ DOMAIN keys["g"].keys # Range(a.nested) \cup {"a0_one", "a0_two"} THEN {"multi-nested-keyset"}
        ELSE UNION { IF \A x \in LocSet : Len(keys[b].vals[x].c) = 1 /\ keys[b].vals[x].c[1].k = "plurals"
                                           /\ DOMAIN keys[b].vals[x].c[1].forms = Range(AllForms)
                     THEN {} ELSE {"multi-not-six-forms:" \o b} : b \in Range(a.top) })
       \* e<i> = $t(d, {"count": tok i}) in locale x shows the form of d (written in the default locale only) that x's rules select
-      \cup (IF DOMAIN keys # Range(a.top) \cup {"g", "d"} \cup { "e" \o ToString(i) : i \in DOMAIN CountToks } THEN {}
+      \cup (IF DOMAIN keys # Range(a.top) \cup {"g", "d", "a0_one", "a0_two"} \cup { "e" \o ToString(i) : i \in DOMAIN CountToks } THEN {}
             ELSE UNION { UNION { LET form == FormFor(Range(AllForms), Oracle.cats[x]["cardinal"][CountToks[i]]) IN
                                    IF keys["e" \o ToString(i)].vals[x] # TextTree(<<"d", "DASH">> \o FormText(M(form, "cardinal")))
                                    THEN {"multi-defaulted-plural-count:" \o x \o ":" \o CountToks[i]} ELSE {}
